@@ -15,7 +15,11 @@ META = {
                  'console_run as the protothread it is, do_tokenize/find_command/console_register transcribed loop by loop, ring as a bounded FIFO of 15, '
                  'scripted commands, layout constants generated from the C on every run; model tied to the C by differential runs over structured streams '
                  'with all three delivery mechanisms, and the C additionally checked against an independent oracle written from the property text',
-    'level_text': 'Proved for all histories and all bytes (kernel-only): buffer_safe (cursor 0..79, every single-byte store of editing and tokenising at offset < 79, '
+    'level_text': 'END TO END (console_end_to_end, _putchar, _eval): from every reachable state not inside a command, for every NUL-free stream delivered by console_process '
+                  '(by console_putchar while <= 15 are outstanding + scheduler; by console_eval), the commands the console STARTS with the argv strings they are handed (ghost log ran, written in find_command) are '
+                  'exactly dispatchSpec(table, line) for the lines the edit-stack spec completes on what was in the ring followed by the stream - one per line, in order; every started command has finished '
+                  '(loops terminate, console back at its prompt, ring empty), the buffer holds the incomplete line, and cursor/stores/scratch stay in bounds; dispatchSpec = (find_command of the first token, do_tokenize of the line alone), '
+                  'characterised by dispatchSpec_registered and lineTokens_eq + the tokeniser theorems. Proved for all histories and all bytes (kernel-only): buffer_safe (cursor 0..79, every single-byte store of editing and tokenising at offset < 79, '
                   'buf[79] and everything from the cursor on NUL whenever the console is not inside a command, scratch union never left, table stays 32 slots '
                   'ending in the sentinel); tokenizer_writes_inside [1,strlen); args_wellformed (1<=argc<=4, argv offsets inside the line, strings end inside it, '
                   'argv[argc..3] empty); dispatch_exact (any registration order of injectively named commands: find returns the command of exactly that name, else '
@@ -29,7 +33,9 @@ META = {
                   'the old loop is kept as tokStepOld with the kernel-checked witness d11_old_tokenizer_mangles_nested_quote: cap "\'a" gave a"). '
                   'unquoted_simple_split in general (any quote-free line whose first character is not a blank: first three tokens = first three blank-separated words, '
                   'argc = min(4, number of words); any separators, trailing blanks, any number of words). No partial theorems remain.',
-    'level_note': 'Trusted: Lean kernel (standard axioms only; no bv_decide); the hand model of console.c, validated on every run against the real code '
+    'level_note': 'O4 (mirrored behaviour the property allows by "or the buffer filling"): the character that arrives when 79 are stored completes the line and is itself DISCARDED, whatever it is - '
+                  'a printable character, backspace or Ctrl-C included (the line-complete test precedes the editing branches); Spec.feed and the model agree on this and the correspondence run exercises it with lines of 77..82 characters. '
+                  'Trusted: Lean kernel (standard axioms only; no bv_decide); the hand model of console.c, validated on every run against the real code '
                   '(harness #includes console.c, ASan + -fsanitize=bounds, canaries around an exactly-sized console_t, real fibre.c/list.c/messageq.c/ringbuf.c); '
                   'commands are modelled as scripts (capture, optional scribble over the scratch union, yield k times, exit/fail) plus the built-ins echo/help/unknown '
                   '- commands that read the ring or keep pointers into scratch are outside the model; libc (strlen, strcmp, isspace for bytes < 128, memset, stdio) '
@@ -42,7 +48,8 @@ REQUIRED = ['Librfn.C15.' + t for t in (
     'layout_ok', 'buffer_safe', 'tokenizer_writes_inside', 'args_wellformed', 'dispatch_exact', 'register_full_clean',
     'line_is_edit', 'completed_line_is_edit', 'fourth_takes_rest', 'tokenize_roundtrip', 'd11_old_tokenizer_mangles_nested_quote',
     'unquoted_simple_split', 'tokens_assemble', 'register_keeps_sorted', 'dispatch_first_registered',
-    'putchar_delivers_exactly_accepted', 'process_never_drops', 'process_delivers_all', 'putchar_delivers_if_drained', 'eval_executes_once_and_completes')]
+    'putchar_delivers_exactly_accepted', 'process_never_drops', 'console_end_to_end', 'console_end_to_end_putchar',
+    'console_end_to_end_eval', 'dispatchSpec_registered', 'lineTokens_eq', 'process_delivers_all', 'putchar_delivers_if_drained', 'eval_executes_once_and_completes')]
 
 R = vlib.REPO
 BL = ' \t'
